@@ -152,6 +152,9 @@ func c17Encode(seq int, subject []byte, pts data.Points) (b []byte, ok bool) {
 	if err != nil {
 		return nil, false
 	}
+	// a packet is a value: it is held while the next one (same length, next sequence number) is built, as a
+	// sender with a queue does, and must still be what was built
+	_, _ = client.SerialEncode(byte(seq+1), string(subject), pts)
 	return append([]byte{}, out...), true
 }
 
